@@ -120,6 +120,31 @@ func confirmGenerated(chainText string, escapeOn bool, s string) (r genResult, t
 // reproduce are replaced by the fresh result.  After three reproduced failures
 // the rest of the chain's failures are taken as they are.
 func confirmFailures(ctx *core.Ctx, chainText string, escapeOn bool, strs []string, res []genResult) {
+	// many failures at once (a machine under extreme load): first all of them
+	// together in one fresh process with the generous timeout, then singly
+	var failed []int
+	for i := range res {
+		if !res[i].ok {
+			failed = append(failed, i)
+		}
+	}
+	if len(failed) > 3 {
+		sub := make([]string, len(failed))
+		for k, i := range failed {
+			sub[k] = strs[i]
+		}
+		if fresh, err := jsrun.NewPool(context.Background(), 1); err == nil {
+			if out, _, err := runGeneratedT(fresh, chainText, escapeOn, sub, 60*time.Second); err == nil && len(out) == len(failed) {
+				for k, i := range failed {
+					if out[k].ok {
+						atomic.AddInt64(&jsRetriedOK, 1)
+						res[i] = out[k]
+					}
+				}
+			}
+			fresh.Close()
+		}
+	}
 	reproduced := 0
 	for i := range res {
 		if res[i].ok || reproduced >= 3 {
